@@ -61,6 +61,11 @@ type Unit struct {
 	curInstr  ssa.Instruction
 	pdoms     map[*ssa.Function]map[*ssa.BasicBlock]*ssa.BasicBlock
 	noMerge   bool
+	entryVariant []T // values of the `decreases` clauses at entry (self-recursion variant)
+	deadBlocks   []string
+	pruned       []prunedBranch // branches the solver found infeasible
+	deadAfterCall []string      // ... whose condition depends on the result of a call replaced by a contract and whose target no path reaches
+	reached      map[*ssa.BasicBlock]bool // basic blocks some explored path entered (vacuity guard: dead code)
 	entryParams map[string]SV
 	curArgTypes []types.Type
 	lastArgTypes map[string][]types.Type
@@ -257,13 +262,13 @@ func (u *Unit) promoteCell(s *State, c *Cell) T {
 			h := u.heapGet(s.view(), hn, hs)
 			u.heapSet(s, hn, Store(h, r, u.structGet(cv, c.typ, i)))
 		}
-		s.private = append(s.private, privRef{r, "obj:" + structName(c.typ)})
+		s.private = append(s.private, privRef{r, "obj:" + structName(c.typ), ""})
 	} else {
 		es := u.sortOf(c.typ)
 		hn, hs := derefHeapName(es)
 		h := u.heapGet(s.view(), hn, hs)
 		u.heapSet(s, hn, Store(h, r, u.lower(s, cur, c.typ)))
-		s.private = append(s.private, privRef{r, "deref:" + string(es)})
+		s.private = append(s.private, privRef{r, "deref:" + string(es), ""})
 	}
 	c.promoted = &r
 	delete(s.cells, c)
@@ -445,7 +450,9 @@ func (u *Unit) store(s *State, p *Ptr, v Value) {
 		hn, hs := derefHeapName(es)
 		h := u.heapGet(s.view(), hn, hs)
 		tv := u.lower(s, v, p.rtyp)
-		s.escape(tv)
+		if !s.holdIn(tv, p.base.S) {
+			s.escape(tv)
+		}
 		u.heapSet(s, hn, Store(h, p.base, tv))
 		if afs := u.aliasedFields(p.rtyp); len(afs) > 0 && !u.knownPlainRef(s, p.base) {
 			for _, af := range afs {
@@ -578,6 +585,30 @@ func (u *Unit) execFunc(st *State, fn *ssa.Function, args []Value, binds []Value
 	return outs
 }
 
+type prunedBranch struct {
+	target *ssa.BasicBlock
+	cond   string
+	at     ssa.Instruction
+}
+
+// mentionsCallResult: the term depends (through named terms) on a value returned by a call
+// that was replaced by its contract (symbols res.* / callee.*).
+func mentionsCallResult(t string, seen map[string]bool) bool {
+	for _, tok := range strings.FieldsFunc(t, func(r rune) bool { return r == ' ' || r == '(' || r == ')' }) {
+		if strings.HasPrefix(tok, "res.") {
+			return true
+		}
+		if seen[tok] {
+			continue
+		}
+		seen[tok] = true
+		if d, ok := termDefs[tok]; ok && d != tok && mentionsCallResult(d, seen) {
+			return true
+		}
+	}
+	return false
+}
+
 func (u *Unit) execBlock(st *State, b *ssa.BasicBlock, pred *ssa.BasicBlock) []Outcome {
 	u.npaths++
 	if u.npaths > maxPaths {
@@ -600,6 +631,10 @@ func (u *Unit) execBlock(st *State, b *ssa.BasicBlock, pred *ssa.BasicBlock) []O
 		return []Outcome{{st: st, atJoin: true}}
 	}
 	st.trace = append(st.trace, fmt.Sprintf("%s:%d", b.Parent().Name(), b.Index))
+	if u.reached == nil {
+		u.reached = map[*ssa.BasicBlock]bool{}
+	}
+	u.reached[b] = true
 	// leaving loops
 	for len(st.loops) > 0 {
 		top := st.loops[len(st.loops)-1]
@@ -635,6 +670,12 @@ func (u *Unit) execInstrs(st *State, b *ssa.BasicBlock, from int, pred *ssa.Basi
 			var outs []Outcome
 			doThen := c.S != "false" && !u.infeasible(st, c)
 			doElse := c.S != "true" && !u.infeasible(st, Not(c))
+			if !doThen && c.S != "false" && st.frame != nil {
+				u.pruned = append(u.pruned, prunedBranch{b.Succs[0], c.S, in})
+			}
+			if !doElse && c.S != "true" && st.frame != nil {
+				u.pruned = append(u.pruned, prunedBranch{b.Succs[1], c.S, in})
+			}
 			join := u.ipdom(b)
 			merging := join != nil && doThen && doElse && !u.noMerge
 			if merging {
@@ -847,7 +888,7 @@ func (u *Unit) execSimple(st *State, in ssa.Instruction) {
 				h := u.heapGet(st.view(), hn, hs)
 				u.heapSet(st, hn, Store(h, r, u.zero(st2.Field(i).Type())))
 			}
-			st.private = append(st.private, privRef{r, "obj:" + structName(et)})
+			st.private = append(st.private, privRef{r, "obj:" + structName(et), ""})
 			st.created = append(st.created, createdObj{r, structName(et), x})
 			fr.regs[x] = r
 			return
@@ -988,7 +1029,7 @@ func (u *Unit) execSimple(st *State, in ssa.Instruction) {
 		d := u.heapGet(st.view(), dn, ds)
 		_, inner := arrParts(ds)
 		u.heapSet(st, dn, Store(d, r, T{fmt.Sprintf("((as const %s) false)", inner), inner}))
-		st.private = append(st.private, privRef{r, "map:" + string(u.sortOf(kt)) + ":" + string(u.sortOf(vt))})
+		st.private = append(st.private, privRef{r, "map:" + string(u.sortOf(kt)) + ":" + string(u.sortOf(vt)), ""})
 		fr.regs[x] = r
 	case *ssa.MakeSlice:
 		et := x.Type().Underlying().(*types.Slice).Elem()
@@ -1005,7 +1046,7 @@ func (u *Unit) execSimple(st *State, in ssa.Instruction) {
 		h := u.heapGet(st.view(), hn, hs)
 		_, inner := arrParts(hs)
 		u.heapSet(st, hn, Store(h, arr, T{fmt.Sprintf("((as const %s) %s)", inner, u.zero(et).S), inner}))
-		st.private = append(st.private, privRef{arr, "arr:" + string(es)})
+		st.private = append(st.private, privRef{arr, "arr:" + string(es), ""})
 		fr.regs[x] = app(SSlice, "mk_slice", arr, IntLit(0), n, c)
 	case *ssa.MakeChan:
 		r := u.newRef(st, "chan")
@@ -1304,7 +1345,7 @@ func (u *Unit) sliceOp(st *State, x *ssa.Slice) Value {
 			hp := u.heapGet(st.view(), hn, hs)
 			_, inner := arrParts(hs)
 			u.heapSet(st, hn, Store(hp, arr, T{fmt.Sprintf("((as const %s) %s)", inner, u.zero(p.lit.etyp).S), inner}))
-			st.private = append(st.private, privRef{arr, "arr:" + string(es)})
+			st.private = append(st.private, privRef{arr, "arr:" + string(es), ""})
 			return app(SSlice, "mk_slice", arr, IntLit(0), IntLit(h), IntLit(int64(len(p.lit.elems))))
 		}
 	}
